@@ -12,8 +12,10 @@
    that index under the write lock). *)
 EXTENDS Integers, Sequences, FiniteSets, TLC
 CONSTANTS Workers, Ops, Variant,
-          Late      \* TRUE: the test goroutine does not join the workers before cleanup(); its first-registered cleanup function does
+          Late,     \* TRUE: the test goroutine does not join the workers before cleanup(); its first-registered cleanup function does
                     \* (goroutines still registering cleanups while the engine already runs the test case's cleanups)
+          MainCtx,  \* TRUE: the property function itself obtains the context before it starts its goroutines
+          Recheck   \* TRUE: Context looks at the cleaning flag again under the lock of its slow path (the code since repair 77ef44e)
 Main == 0
 Procs == Workers \cup {Main}
 
@@ -66,6 +68,7 @@ procedure Context() variable c = 0; begin
   c7: Lock();
   c8: Begin("ctx", "r");
   c9: c := ctx; End("ctx", "r");
+  c9b: if c = 0 /\ Recheck /\ cleaning then got[self] := -1; Unlock(); return; end if;
   c10: if c = 0 \/ Variant = "ctx_norecheck" then
          Begin("ctx", "w");
   c11:   ctx := nextCtx; c := nextCtx; nextCtx := nextCtx + 1; End("ctx", "w");
@@ -100,7 +103,7 @@ fair process w \in Workers begin
 end process;
 
 fair process main \in {Main} variable n = 0; begin
-  m0: call Context();
+  m0: if MainCtx then call Context(); end if;
   m1: if Late then
         \* t.Cleanup(func() { join }) registered by the property before it starts its goroutines' work
         cleanups := <<Main>>; registered := {Main};
@@ -304,10 +307,23 @@ c8(self) == /\ pc[self] = "c8"
 c9(self) == /\ pc[self] = "c9"
             /\ c' = [c EXCEPT ![self] = ctx]
             /\ acc' = [acc EXCEPT !["ctx"] = acc["ctx"] \ {<<self, "r">>}]
-            /\ pc' = [pc EXCEPT ![self] = "c10"]
+            /\ pc' = [pc EXCEPT ![self] = "c9b"]
             /\ UNCHANGED << writer, readers, ctx, nextCtx, cancelled, cleaning, 
                             failed, cleanups, ran, op, got, signalled, done, 
                             verdictFailed, registered, stack, n >>
+
+c9b(self) == /\ pc[self] = "c9b"
+             /\ IF c[self] = 0 /\ Recheck /\ cleaning
+                   THEN /\ got' = [got EXCEPT ![self] = -1]
+                        /\ writer' = -1
+                        /\ pc' = [pc EXCEPT ![self] = Head(stack[self]).pc]
+                        /\ c' = [c EXCEPT ![self] = Head(stack[self]).c]
+                        /\ stack' = [stack EXCEPT ![self] = Tail(stack[self])]
+                   ELSE /\ pc' = [pc EXCEPT ![self] = "c10"]
+                        /\ UNCHANGED << writer, got, stack, c >>
+             /\ UNCHANGED << readers, ctx, nextCtx, cancelled, cleaning, 
+                             failed, cleanups, ran, acc, op, signalled, done, 
+                             verdictFailed, registered, n >>
 
 c10(self) == /\ pc[self] = "c10"
              /\ IF c[self] = 0 \/ Variant = "ctx_norecheck"
@@ -342,7 +358,7 @@ c12(self) == /\ pc[self] = "c12"
 
 Context(self) == c1(self) \/ c2(self) \/ c3(self) \/ c4(self) \/ c5(self)
                     \/ c6(self) \/ c7(self) \/ c8(self) \/ c9(self)
-                    \/ c10(self) \/ c11(self) \/ c12(self)
+                    \/ c9b(self) \/ c10(self) \/ c11(self) \/ c12(self)
 
 k1(self) == /\ pc[self] = "k1"
             /\ IF Variant = "reg_rlock"
@@ -466,12 +482,15 @@ fin(self) == /\ pc[self] = "fin"
 w(self) == pick(self) \/ run(self) \/ fin(self)
 
 m0(self) == /\ pc[self] = "m0"
-            /\ stack' = [stack EXCEPT ![self] = << [ procedure |->  "Context",
-                                                     pc        |->  "m1",
-                                                     c         |->  c[self] ] >>
-                                                 \o stack[self]]
-            /\ c' = [c EXCEPT ![self] = 0]
-            /\ pc' = [pc EXCEPT ![self] = "c1"]
+            /\ IF MainCtx
+                  THEN /\ stack' = [stack EXCEPT ![self] = << [ procedure |->  "Context",
+                                                                pc        |->  "m1",
+                                                                c         |->  c[self] ] >>
+                                                            \o stack[self]]
+                       /\ c' = [c EXCEPT ![self] = 0]
+                       /\ pc' = [pc EXCEPT ![self] = "c1"]
+                  ELSE /\ pc' = [pc EXCEPT ![self] = "m1"]
+                       /\ UNCHANGED << stack, c >>
             /\ UNCHANGED << writer, readers, ctx, nextCtx, cancelled, cleaning, 
                             failed, cleanups, ran, acc, op, got, signalled, 
                             done, verdictFailed, registered, n >>
